@@ -33,6 +33,7 @@ type Outcome struct {
 	Trivial  int            `json:"trivial_paths,omitempty"`
 	Solvers  map[string]int `json:"solvers,omitempty"`
 	Seconds  float64        `json:"solver_s,omitempty"`
+	MaxQuery float64        `json:"max_query_s,omitempty"`
 	Kind     string         `json:"kind,omitempty"` // vc | scan | lemma | bounded
 	Detail   string         `json:"detail,omitempty"`
 	fail     *ObligStatus
@@ -245,6 +246,18 @@ func (e *Engine) RunContracts(pc *PropertyCheck, timeout time.Duration, maxPaths
 		if fr.Capped {
 			incomplete = fmt.Sprintf("path cap %d reached", maxPaths)
 		}
+		if ct.LoopBounded {
+			onlyLoops := len(fr.Aborts) > 0
+			for m := range fr.Aborts {
+				if !strings.HasPrefix(m, "loop bound exceeded") {
+					onlyLoops = false
+				}
+			}
+			if onlyLoops {
+				pc.Bounded[full+": iterations of its store-range loop"] = e.Env.Cfg.MaxBlockVis - 1
+				fr.Aborts = nil
+			}
+		}
 		if len(fr.Aborts) > 0 {
 			var ms []string
 			for m, n := range fr.Aborts {
@@ -257,7 +270,7 @@ func (e *Engine) RunContracts(pc *PropertyCheck, timeout time.Duration, maxPaths
 		sts := Discharge(obs, timeout, 16)
 		seen := map[string]bool{}
 		for _, st := range sts {
-			o := &Outcome{Name: shortPkg(fn) + "." + st.Name, Func: full, Status: st.Status, Paths: st.Paths, Trivial: st.Trivial, Solvers: st.Solvers, Seconds: round3(st.Seconds), Kind: "vc"}
+			o := &Outcome{Name: shortPkg(fn) + "." + st.Name, Func: full, Status: st.Status, Paths: st.Paths, Trivial: st.Trivial, Solvers: st.Solvers, Seconds: round3(st.Seconds), MaxQuery: round3(st.MaxQuery), Kind: "vc"}
 			pc.SolverSecs += st.Seconds
 			if st.Cover {
 				o.Kind = "cover"
@@ -314,7 +327,7 @@ func (e *Engine) RunContracts(pc *PropertyCheck, timeout time.Duration, maxPaths
 			continue
 		}
 		for _, st := range Discharge(e.Env.CheckLemma(l), timeout, 16) {
-			o := &Outcome{Name: shortPath(l.PkgPath) + "." + st.Name, Status: st.Status, Paths: st.Paths, Trivial: st.Trivial, Solvers: st.Solvers, Seconds: round3(st.Seconds), Kind: "lemma"}
+			o := &Outcome{Name: shortPath(l.PkgPath) + "." + st.Name, Status: st.Status, Paths: st.Paths, Trivial: st.Trivial, Solvers: st.Solvers, Seconds: round3(st.Seconds), MaxQuery: round3(st.MaxQuery), Kind: "lemma"}
 			pc.SolverSecs += st.Seconds
 			if st.Status != "discharged" {
 				o.fail = st
@@ -743,7 +756,22 @@ func (e *Engine) writeEvidence(pc *PropertyCheck, level, technique string, claim
 	for _, b := range bounded {
 		assumptions = append(assumptions, "BOUNDED (not a proof beyond the bound): symbolic collection "+b)
 	}
+	// the slowest single solver queries: what would go undecided first on a slower machine
+	var slow []*Outcome
+	for _, o := range pc.Outcomes {
+		if o.MaxQuery >= 1 {
+			slow = append(slow, o)
+		}
+	}
+	sort.Slice(slow, func(i, j int) bool { return slow[i].MaxQuery > slow[j].MaxQuery })
+	var slowest []interface{}
+	for i, o := range slow {
+		if i < 8 {
+			slowest = append(slowest, map[string]interface{}{"obligation": o.Name, "max_query_s": o.MaxQuery})
+		}
+	}
 	cov := map[string]interface{}{
+		"slowest_queries_over_1s":   slowest,
 		"obligations":               nClaimed,
 		"discharged":                nDis,
 		"obligations_generated":     len(names),
